@@ -42,6 +42,17 @@ AWARE = ["#2020-06-01T12:00+02:00#", "#2020-06-01T10:00+00:00#", "#2020-06-01T05
          "#2020-06-01T10:00:00.000001+00:00#", "#2020-06-01T11:59+02:00#", "#2020-05-31T23:00-11:00#"]
 
 
+# spellings of instants in a NAMED zone at hours where the offset changes (RFC 9557 style suffixes and the like): rejected on the
+# reviewed tree — then nothing is asked — but wherever one of them is a value it is comparable with the other offset-aware
+# instants, and the same moment is == whatever zone it was written in
+ZONED = ["#2020-10-25T00:30:00Z[Europe/London]#", "#2020-10-25T01:30:00[Europe/London]#", "#2020-10-25T01:30:00+00:00[Europe/London]#",
+         "#2020-10-25T01:30:00+01:00[Europe/London]#", "#2020-03-29T01:30:00[Europe/London]#", "#2020-03-29T00:30:00Z[Europe/London]#",
+         "#2021-11-07T01:30:00[America/New_York]#", "#2021-11-07T05:30:00Z[America/New_York]#", "#2021-11-07T06:30:00Z[America/New_York]#",
+         "#2020-10-25T00:30:00Z Europe/London#", "#2020-10-25T01:30:00 Europe/London#", "#2020-10-25T00:30:00Z[UTC]#", "#2020-06-01T10:00Z[Europe/Dublin]#"]
+ZONED_PEERS = ["#2020-10-25T00:30:00Z#", "#2020-10-25T01:30:00+01:00#", "#2020-10-25T00:30:00+00:00#", "#2020-10-25T01:30:00Z#", "#2020-03-29T00:30:00Z#",
+               "#2020-03-29T01:30:00Z#", "#2021-11-07T05:30:00Z#", "#2021-11-07T06:30:00Z#", "#2021-11-07T01:30:00-04:00#", "#2021-11-07T01:30:00-05:00#"]
+
+
 def key_of(v, R):
     """exact ordering key and class of an evaluated operand"""
     T = R.types
@@ -83,7 +94,7 @@ def check(ctx):
             nums.append("%d/%d" % (rng.randrange(-30, 30), rng.randrange(1, 12)))
         else:
             nums.append(repr(round(rng.uniform(-5, 5), rng.randrange(0, 4))))
-    pools = {"num": nums, "qty": QTYS, "dimless": DIMLESS, "inst": INSTS, "aware": AWARE}
+    pools = {"num": nums, "qty": QTYS, "dimless": DIMLESS, "inst": INSTS, "aware": AWARE, "zoned": ZONED + ZONED_PEERS}
     vals = {}
     for pool in pools.values():
         for t in pool:
@@ -103,6 +114,10 @@ def check(ctx):
     if ctx.quick():
         rng.shuffle(pairs)
         pairs = pairs[:1400]
+    # every pair with a zone-named spelling, if the tree accepts any
+    zok = [z for z in ZONED if vals[z][0] == "Z"]
+    pairs += [(a, b) for a in zok for b in zok + ZONED_PEERS + AWARE] + [(b, a) for a in zok for b in ZONED_PEERS + AWARE]
+    ctx.cov["zone_named_spellings_accepted"] = len(zok)
     cases = []
     for a, b in pairs + cross:
         ka, kb = vals[a], vals[b]
